@@ -170,7 +170,8 @@ def stderr_fault_task(task):
         if after.get(q) != before.get(q):
             problems.append("%r changed" % q)
     return {"key": (i % 3, i % 2, i), "bad": [{"verdict": "; ".join(problems), "plan": plan, "stdout": repr(o["stdout"][-300:]),
-                                              "exc": o.get("exc"), "world": jsonable(world)}] if problems else []}
+                                              "exc": o.get("exc"), "world": jsonable(world),
+                                              "directed": {"fn": "stderr_fault_task", "task": {"seed": task["seed"], "i": task["i"]}}}] if problems else []}
 
 
 def run(tier, seed):
@@ -196,4 +197,9 @@ def run(tier, seed):
 
 
 def replay(path):
+    import sys
+    from ..core import replay_directed
+    rc = replay_directed(sys.modules[__name__], "C06", path)
+    if rc is not None:
+        return rc
     return replay_family("C06", path, CFG)
